@@ -141,12 +141,12 @@ Lemma body_call2 f : main2_at f -> forall text body w e' tr st,
     /\ last_or_zero sts = st.
 Proof.
   intros IH text body w e' tr st [p [r [pairs [rule [txt [tail [Hp [Hm Ht]]]]]]]] Hok Hf Hr.
-  unfold run_lines. rewrite Hp, Hm, run_pairs_one.
+  unfold run_lines. rewrite Hp, Hm, run_pairs_one. erewrite exp_loop_skel by exact Ht.
   destruct (IH body Hok
               (run_exp_if shs (XL f) no_words no_setvar s_eoe n (length text))
               (run_exp_for shs (XL f) no_words no_setvar s_eoe n (length text))
               (run_exp_while shs (XL f) no_words no_setvar s_eoe n (length text))
-              tail w [] e' tr st Ht Hf Hr) as [sts [H1 H2]].
+              [] w [] e' tr st eq_refl Hf Hr) as [sts [H1 H2]].
   rewrite H1. cbn [app] in *. exists sts. split; [reflexivity | exact H2].
 Qed.
 
